@@ -216,13 +216,33 @@ func (fx *FnExec) modHeapNames(e ast.Expr, names map[string]types.Type) []string
 
 // applyModifies havocs exactly the locations named.
 func (fx *FnExec) applyModifies(ct *Contract, env *evalEnv) error {
-	for _, m := range ct.Modifies {
+	// the locations a modifies clause names are those of the state before the call (that is how the
+	// callee's body is checked against it): evaluate every target first, then havoc - otherwise
+	// "modifies x.m, entries(x.m)" would havoc the entries of whatever x.m is afterwards
+	pre := make([]cval, len(ct.Modifies))
+	for i, m := range ct.Modifies {
+		var e ast.Expr
 		switch x := m.ast.(type) {
 		case *ast.SelectorExpr:
-			base, err := fx.evalC(x.X, env)
-			if err != nil {
-				return err
+			e = x.X
+		case *ast.CallExpr:
+			if len(x.Args) == 1 {
+				e = x.Args[0]
 			}
+		}
+		if e == nil {
+			continue
+		}
+		v, err := fx.evalC(e, env)
+		if err != nil {
+			return err
+		}
+		pre[i] = v
+	}
+	for mi, m := range ct.Modifies {
+		switch x := m.ast.(type) {
+		case *ast.SelectorExpr:
+			base := pre[mi]
 			el, isPtr := derefType(base.T)
 			st, ok := el.Underlying().(*types.Struct)
 			if !ok || !isPtr {
@@ -247,10 +267,7 @@ func (fx *FnExec) applyModifies(ct *Contract, env *evalEnv) error {
 			if id == nil || len(x.Args) != 1 {
 				return fmt.Errorf("modifies %s: unsupported", m.Text)
 			}
-			v, err := fx.evalC(x.Args[0], env)
-			if err != nil {
-				return err
-			}
+			v := pre[mi]
 			switch id.Name {
 			case "stream":
 				ref := streamRef(v)
